@@ -377,6 +377,32 @@ func Run(cs Case, c *vrt.Ctx) {
 				}
 			}
 		}
+		// a time as element of a typed slice, array or map is the same tree as in a []any or a
+		// map[string]any with the same elements, for each writer by itself
+		when := time.Date(2021, 3, 4, 5, 6, 7, 0, time.UTC)
+		for _, pair := range [][2]any{
+			{[]time.Time{when, when.Add(time.Hour)}, []any{when, when.Add(time.Hour)}},
+			{[2]time.Time{when, when}, []any{when, when}},
+			{map[string]time.Time{"k": when}, map[string]any{"k": when}},
+			{struct{ L []time.Time }{[]time.Time{when}}, map[string]any{"L": []any{when}}},
+		} {
+			o := options(cs.Opt, 0)
+			o.KeyExact = true
+			o.CreateKey = "" // a map has no type to name
+			for _, w := range []struct {
+				name string
+				f    func(any) string
+			}{{"oj.JSON", func(v any) string { return oj.JSON(v, o) }}, {"sen.String", func(v any) string { return sen.String(v, o) }}} {
+				var a, b string
+				if pv, stack := vrt.Catch(func() { a, b = w.f(pair[0]), w.f(pair[1]) }); pv != nil {
+					c.Fail("panic", w.name+"(typed container of times)", fmt.Sprintf("%v at %s", pv, stack))
+					continue
+				}
+				if a != b || a == "" {
+					c.Fail("typed-container-of-times-differs", w.name, fmt.Sprintf("%T gives %q, the same elements in %T give %q", pair[0], a, pair[1], b))
+				}
+			}
+		}
 		c.Class("self-writing-field(oj vs sen)")
 	}
 	feats := map[string]bool{}
